@@ -2,7 +2,7 @@
 import os
 
 from . import core
-from .rules import stdio, cert, mark, exact, optstore, inval, idx, atomic, own, tokens, idxclass, copy, pair, structfree, buf, div, counter, sentinel, appendinit, verdict, basismap, zerotol, escape, lenclass, djsym, ndet, useb4check, norms, opencheck, shell, esolver, errlost, rescan, certdep, neverset, fmt, defaults, scratch, fullscan, slotleak, floatidx, sensemap, trunc, vtypezero, allockind, intdiv, strscan, localfield, rawidx, argcap, staleptr, condalloc, lpstate, vstattype, alphabet, outleak, fieldleak, lenm1, basisdim, dupmark, rowcopy, normlen, logonly, decacc, nzcount, infmap, lognofail, outunset, dupentry, digitseen, signedidx, strcap, nulterm, finite, nullret, pcheck, probstat
+from .rules import stdio, cert, mark, exact, optstore, inval, idx, atomic, own, tokens, idxclass, copy, pair, structfree, buf, div, counter, sentinel, appendinit, verdict, basismap, zerotol, escape, lenclass, djsym, ndet, useb4check, norms, opencheck, shell, esolver, errlost, rescan, certdep, neverset, fmt, defaults, scratch, fullscan, slotleak, floatidx, sensemap, trunc, vtypezero, allockind, intdiv, strscan, localfield, rawidx, argcap, staleptr, condalloc, lpstate, vstattype, alphabet, outleak, fieldleak, lenm1, basisdim, dupmark, rowcopy, normlen, logonly, decacc, nzcount, infmap, lognofail, outunset, dupentry, digitseen, signedidx, strcap, nulterm, finite, nullret, pcheck, probstat, dzfresh
 from .effects import Effects
 
 FIX = os.path.join(os.path.dirname(os.path.abspath(__file__)), "fixtures")
@@ -164,6 +164,7 @@ def c01_rules():
         lambda prog, tier: escape.run_extcopy(prog),
         lambda prog, tier: argcap.run(prog, floor=40),
         lambda prog, tier: rowcopy.run(prog, shared_eff(prog)),
+        lambda prog, tier: dzfresh.run(prog),
     ]
 
 
@@ -664,7 +665,8 @@ _ADD = {
             "technique": "; interprocedural subscript-space requirement of pointer parameters against reaching allocation classes of local vectors",
             "level_text": " Since session 3 the presence, coverage, failing signs and data dependences of the test's own gates are decided too "
                           "(R-CERTDEP): a dropped or narrowed check, a wrong array or index space, a data-dependent skip are reported. (R-VTYPEZERO) wherever a non-basic status is chosen "
-                          "from the variable type, STAT_ZERO is reachable for VFREE only (type-value enumeration through the if forms)."},
+                          "from the variable type, STAT_ZERO is reachable for VFREE only (type-value enumeration through the if forms). (R-DZFRESH) the per-column reduced-cost routine of partial pricing stores into dz[ix] / pIdz[ix] on every path (must-pass-through): "
+                           "the reduced costs of an OPTIMAL answer are handed out as they stand."},
     "C02": {"explanation": " (R-ARGCAP) every local vector handed to the tests (and to every other function) was allocated with a dimension "
                            "that covers the index spaces the callee subscripts it with.",
             "technique": "; interprocedural subscript-space requirement of pointer parameters against reaching allocation classes of local vectors; "
